@@ -291,3 +291,33 @@ def check(ctx, rep):
         else:
             rep.bad("T-SPEC", "T-SPEC:class:id_start", pid.where(), "parse_id no longer tests the first character with is_lower")
     return n
+
+
+def check_number_no_arith(ctx, rep):
+    """the f64 of a decoded number is the result of str::parse::<f64> on the token's text: no floating-point arithmetic or
+    libm call takes part (scaling a parsed mantissa by a power of ten rounds twice and is off by one ulp for about a quarter
+    of the exponent spellings)"""
+    prog = ctx.prog
+    n = 0
+    for b in prog.bodies.values():
+        if not b.file.endswith("encoding/zinc/decode/scalar/number.rs"):
+            continue
+        n += 1
+        bad = []
+        for bi, blk in enumerate(b.blocks):
+            for st in blk["stmts"]:
+                if st["k"] == "assign" and st["rv"]["k"] == "binop" and st["rv"]["op"].replace("WithOverflow", "") in ("Add", "Sub", "Mul", "Div", "Rem"):
+                    pl = st["lhs"] if "lhs" in st else st.get("place")
+                    ty = b.local_ty(pl["l"]) if pl and not pl["p"] else ""
+                    if ty in ("f64", "f32"):
+                        bad.append((bi, "%s on %s" % (st["rv"]["op"], ty)))
+        for bi, t in b.calls():
+            nm = strip_generics(mir.callee_name(t) or "")
+            if re.match(r"^std::f(32|64)::<impl f(32|64)>::(powi|powf|exp|exp2|mul_add|ln|log10|sqrt)$", nm) or nm.startswith("core::f64::<impl f64>::pow"):
+                bad.append((bi, nm.split("::")[-1]))
+        key = "number-text-parsed-once:%s" % b.short.split("::")[-1]
+        if bad:
+            rep.bad("T-NUMFMT", "T-NUMFMT:" + key, b.where(bad[0][0]), "%s computes with floats (%s): the decoded value is no longer the correctly rounded value of the text" % (b.short.split("::")[-1], ", ".join(x[1] for x in bad[:3])))
+        else:
+            rep.ok("T-NUMFMT", key, b.where(), "no float arithmetic; values come from str::parse::<f64>")
+    return n
